@@ -11,7 +11,6 @@ From stdpp Require Import gmap.
 From Coq Require Import Strings.String Strings.Ascii ZArith NArith Lia.
 From RV Require Import Base.Text Irc.Str Irc.Parse Irc.State Irc.Monad Irc.Cmds Irc.SCmds Irc.Apply.
 From RV Require Import IrcProofs.WP IrcProofs.Inv IrcProofs.InvPrims IrcProofs.StrLemmas IrcProofs.Handlers IrcProofs.Top.
-From RV Require IrcProofs.Outputs.
 Local Open Scope string_scope.
 
 (* ====================================================================================================== *)
@@ -585,7 +584,6 @@ Section Handlers.
     | |- hl _ _ _ _ => solve [auto 3 with hldb nocore]
     end.
   Ltac go := cbv zeta; repeat first [ hl_step site inv | sub | progress unf ].
-  Ltac rest := try match goal with |- ?G => idtac "REMAINING:"; idtac G end.
 
   Lemma ok_delete_session k0 sv : HL sv (delete_session k0).
   Proof. unfold delete_session. unf. go. Qed.
@@ -624,13 +622,13 @@ Section Handlers.
   Local Hint Extern 1 (D _) => solve_D : hldb.
 
   Lemma ok_cmd_nick e k0 m sv : ACT k0 -> HL sv (cmd_nick e k0 m).
-  Proof. intros HA. unfold cmd_nick. unf. go. all: rest. Qed.
+  Proof. intros HA. unfold cmd_nick. unf. go. Qed.
   Lemma ok_cmd_user e k0 m sv : ACT k0 -> HL sv (cmd_user e k0 m).
-  Proof. intros HA. unfold cmd_user. unf. go. all: rest. Qed.
+  Proof. intros HA. unfold cmd_user. unf. go. Qed.
   Lemma ok_cmd_pass e k0 m sv : ACT k0 -> HL sv (cmd_pass e k0 m).
-  Proof. intros HA. unfold cmd_pass. unf. go. all: rest. Qed.
+  Proof. intros HA. unfold cmd_pass. unf. go. Qed.
   Lemma ok_mode_step k0 lc ch op md q sv : ACT k0 -> HL sv (cmd_mode_chan_step k0 lc ch op md q).
-  Proof. intros HA. unfold cmd_mode_chan_step. unf. go. all: rest. Qed.
+  Proof. intros HA. unfold cmd_mode_chan_step. unf. go. Qed.
   Lemma ok_mode_loop k0 lc ch op mds q sv : ACT k0 -> HL sv (cmd_mode_chan_loop k0 lc ch op mds q).
   Proof.
     intros HA. revert q sv. induction mds as [|md mds IH]; intros q sv; cbn [cmd_mode_chan_loop]; [apply hl_ret|].
@@ -638,49 +636,49 @@ Section Handlers.
   Qed.
   Local Hint Resolve ok_mode_loop : hldb.
   Lemma ok_cmd_mode k0 m sv : ACT k0 -> HL sv (cmd_mode k0 m).
-  Proof. intros HA. unfold cmd_mode. unf. go. all: rest. Qed.
+  Proof. intros HA. unfold cmd_mode. unf. go. Qed.
   Lemma ok_cmd_topic k0 m sv : ACT k0 -> HL sv (cmd_topic k0 m).
-  Proof. intros HA. unfold cmd_topic. unf. go. all: rest. Qed.
+  Proof. intros HA. unfold cmd_topic. unf. go. Qed.
   Lemma ok_cmd_names k0 m sv : ACT k0 -> HL sv (cmd_names k0 m).
-  Proof. intros HA. unfold cmd_names. unf. go. all: rest. Qed.
+  Proof. intros HA. unfold cmd_names. unf. go. Qed.
   Local Hint Resolve ok_cmd_mode ok_cmd_topic ok_cmd_names : hldb.
   Lemma ok_join_one e k0 ch key sv : ACT k0 -> HL sv (join_one e k0 ch key).
-  Proof. intros HA. unfold join_one. unf. go. all: rest. Qed.
+  Proof. intros HA. unfold join_one. unf. go. Qed.
   Local Hint Resolve ok_join_one : hldb.
   Lemma ok_cmd_join e k0 m sv : ACT k0 -> HL sv (cmd_join e k0 m).
-  Proof. intros HA. unfold cmd_join. unf. go. all: rest. Qed.
+  Proof. intros HA. unfold cmd_join. unf. go. Qed.
   Lemma ok_cmd_part k0 m sv : ACT k0 -> HL sv (cmd_part k0 m).
-  Proof. intros HA. unfold cmd_part. unf. go. all: rest. Qed.
+  Proof. intros HA. unfold cmd_part. unf. go. Qed.
   Lemma ok_cmd_kick k0 m sv : ACT k0 -> HL sv (cmd_kick k0 m).
-  Proof. intros HA. unfold cmd_kick. unf. go. all: rest. Qed.
+  Proof. intros HA. unfold cmd_kick. unf. go. Qed.
   Lemma ok_cmd_invite k0 m sv : ACT k0 -> HL sv (cmd_invite k0 m).
-  Proof. intros HA. unfold cmd_invite. unf. go. all: rest. Qed.
+  Proof. intros HA. unfold cmd_invite. unf. go. Qed.
   Lemma ok_cmd_privmsg k0 m sv :
     ACT k0 -> to_upper (m_cmd m) = "PRIVMSG" \/ to_upper (m_cmd m) = "NOTICE" -> HL sv (cmd_privmsg k0 m).
-  Proof. intros HA [Hc|Hc]; unfold cmd_privmsg; unf; go. all: rest. Qed.
+  Proof. intros HA [Hc|Hc]; unfold cmd_privmsg; unf; go. Qed.
   Lemma ok_cmd_who k0 m sv : ACT k0 -> HL sv (cmd_who k0 m).
-  Proof. intros HA. unfold cmd_who. unf. go. all: rest. Qed.
+  Proof. intros HA. unfold cmd_who. unf. go. Qed.
   Lemma ok_cmd_whois k0 m sv : ACT k0 -> HL sv (cmd_whois k0 m).
-  Proof. intros HA. unfold cmd_whois. unf. go. all: rest. Qed.
+  Proof. intros HA. unfold cmd_whois. unf. go. Qed.
   Lemma ok_cmd_list k0 m sv : ACT k0 -> HL sv (cmd_list k0 m).
-  Proof. intros HA. unfold cmd_list. unf. go. all: rest. Qed.
+  Proof. intros HA. unfold cmd_list. unf. go. Qed.
   Lemma ok_cmd_away k0 m sv : ACT k0 -> HL sv (cmd_away k0 m).
-  Proof. intros HA. unfold cmd_away. unf. go. all: rest. Qed.
+  Proof. intros HA. unfold cmd_away. unf. go. Qed.
   Lemma ok_cmd_ison k0 m sv : ACT k0 -> HL sv (cmd_ison k0 m).
-  Proof. intros HA. unfold cmd_ison. unf. go. all: rest. Qed.
+  Proof. intros HA. unfold cmd_ison. unf. go. Qed.
   Lemma ok_cmd_userhost k0 m sv : ACT k0 -> HL sv (cmd_userhost k0 m).
-  Proof. intros HA. unfold cmd_userhost. unf. go. all: rest. Qed.
+  Proof. intros HA. unfold cmd_userhost. unf. go. Qed.
   Lemma ok_cmd_knock k0 m sv : ACT k0 -> HL sv (cmd_knock k0 m).
-  Proof. intros HA. unfold cmd_knock. unf. go. all: rest. Qed.
+  Proof. intros HA. unfold cmd_knock. unf. go. Qed.
   Lemma ok_cmd_ping k0 m sv : ACT k0 -> HL sv (cmd_ping k0 m).
-  Proof. intros HA. unfold cmd_ping. unf. go. all: rest. Qed.
+  Proof. intros HA. unfold cmd_ping. unf. go. Qed.
   Lemma ok_cmd_quit k0 m sv : ACT k0 -> HL sv (cmd_quit k0 m).
-  Proof. intros HA. unfold cmd_quit. unf. go. all: rest. Qed.
+  Proof. intros HA. unfold cmd_quit. unf. go. Qed.
   Lemma ok_cmd_kill k0 m sv : ACT k0 -> HL sv (cmd_kill k0 m).
-  Proof. intros HA. unfold cmd_kill. unf. go. all: rest. Qed.
+  Proof. intros HA. unfold cmd_kill. unf. go. Qed.
   Local Hint Resolve ok_cmd_kill : hldb.
   Lemma ok_cmd_gline k0 m sv : ACT k0 -> HL sv (cmd_gline k0 m).
-  Proof. intros HA. unfold cmd_gline. unf. go. all: rest. Qed.
+  Proof. intros HA. unfold cmd_gline. unf. go. Qed.
   Lemma ok_cmd_service_alias k0 m sv : ACT k0 -> HL sv (cmd_service_alias k0 m).
   Proof.
     intros HA. unfold cmd_service_alias. destruct (service_alias (to_upper (m_cmd m))) as [expanded|] eqn:He; [|apply hl_ret].
@@ -691,10 +689,10 @@ Section Handlers.
   (* ---- services ------------------------------------------------------------------------------------- *)
 
   Lemma ok_burst_one sv0 t sv : JJ sv0 -> HL sv (burst_one sv0 t).
-  Proof. intros HJ0. unfold burst_one. unf. go. all: rest. Qed.
+  Proof. intros HJ0. unfold burst_one. unf. go. Qed.
   Local Hint Resolve ok_burst_one : hldb.
   Lemma ok_cmd_server m sv : HL sv (cmd_server k m).
-  Proof. assert (HA : ACT k) by (left; reflexivity). unfold cmd_server, member_session. unf. go. all: rest. Qed.
+  Proof. assert (HA : ACT k) by (left; reflexivity). unfold cmd_server, member_session. unf. go. Qed.
 
   Lemma ok_upd_change_nick (k0 : N * N) f0 nick old caps sv :
     (forall s, s_key (f0 s) = s_key s) -> D (fst k0) ->
@@ -716,45 +714,43 @@ Section Handlers.
       intros HA. unfold cmd_server_nick, create_session. unf. cbv zeta.
       repeat first [ (apply ok_upd_change_nick; [intros ?; reflexivity|cbn [fst]; solve_D])
                    | hl_step site inv | sub | progress unf ].
-      all: rest.
     Qed.
     Lemma ok_quit_pseudo tk m sv : HL sv (quit_pseudo tk m).
-    Proof. unfold quit_pseudo. unf. go. all: rest. Qed.
+    Proof. unfold quit_pseudo. unf. go. Qed.
     Local Hint Resolve ok_quit_pseudo : hldb.
     Lemma ok_cmd_server_quit k0 m sv : ACT k0 -> HL sv (cmd_server_quit k0 m).
-    Proof. intros HA. unfold cmd_server_quit. unf. go. all: rest. Qed.
+    Proof. intros HA. unfold cmd_server_quit. unf. go. Qed.
     Lemma ok_cmd_server_kill k0 m sv : ACT k0 -> HL sv (cmd_server_kill k0 m).
-    Proof. intros HA. unfold cmd_server_kill. unf. go. all: rest. Qed.
+    Proof. intros HA. unfold cmd_server_kill. unf. go. Qed.
     Lemma ok_cmd_server_join k0 m sv : ACT k0 -> HL sv (cmd_server_join k0 m).
-    Proof. intros HA. unfold cmd_server_join. unf. go. all: rest. Qed.
+    Proof. intros HA. unfold cmd_server_join. unf. go. Qed.
     Lemma ok_cmd_server_part k0 m sv : ACT k0 -> HL sv (cmd_server_part k0 m).
-    Proof. intros HA. unfold cmd_server_part. unf. go. all: rest. Qed.
+    Proof. intros HA. unfold cmd_server_part. unf. go. Qed.
     Lemma ok_cmd_server_kick k0 m sv : ACT k0 -> HL sv (cmd_server_kick k0 m).
-    Proof. intros HA. unfold cmd_server_kick. unf. go. all: rest. Qed.
+    Proof. intros HA. unfold cmd_server_kick. unf. go. Qed.
     Lemma ok_cmd_server_svsjoin k0 m sv : ACT k0 -> HL sv (cmd_server_svsjoin k0 m).
-    Proof. intros HA. unfold cmd_server_svsjoin. unf. go. all: rest. Qed.
+    Proof. intros HA. unfold cmd_server_svsjoin. unf. go. Qed.
     Lemma ok_cmd_server_svspart k0 m sv : ACT k0 -> HL sv (cmd_server_svspart k0 m).
-    Proof. intros HA. unfold cmd_server_svspart. unf. go. all: rest. Qed.
+    Proof. intros HA. unfold cmd_server_svspart. unf. go. Qed.
     Lemma ok_cmd_server_svsnick k0 m sv : ACT k0 -> HL sv (cmd_server_svsnick k0 m).
     Proof.
       intros HA. unfold cmd_server_svsnick. unf. cbv zeta.
       repeat first [ (eapply hl_bind_modS4; [intros ?; apply JJ_svsnick; [solve_D|assumption]|])
                    | hl_step site inv | sub | progress unf ].
-      all: rest.
     Qed.
     Lemma ok_cmd_server_mode k0 m sv : ACT k0 -> HL sv (cmd_server_mode k0 m).
-    Proof. intros HA. unfold cmd_server_mode. unf. go. all: rest. Qed.
+    Proof. intros HA. unfold cmd_server_mode. unf. go. Qed.
     Lemma ok_cmd_server_topic k0 m sv : ACT k0 -> HL sv (cmd_server_topic k0 m).
-    Proof. intros HA. unfold cmd_server_topic. unf. go. all: rest. Qed.
+    Proof. intros HA. unfold cmd_server_topic. unf. go. Qed.
     Lemma ok_cmd_server_invite k0 m sv : ACT k0 -> HL sv (cmd_server_invite k0 m).
-    Proof. intros HA. unfold cmd_server_invite. unf. go. all: rest. Qed.
+    Proof. intros HA. unfold cmd_server_invite. unf. go. Qed.
     Lemma ok_cmd_server_privmsg k0 m sv :
       ACT k0 -> to_upper (m_cmd m) = "PRIVMSG" \/ to_upper (m_cmd m) = "NOTICE" -> HL sv (cmd_server_privmsg k0 m).
-    Proof. intros HA [Hc|Hc]; unfold cmd_server_privmsg; unf; go. all: rest. Qed.
+    Proof. intros HA [Hc|Hc]; unfold cmd_server_privmsg; unf; go. Qed.
     Lemma ok_cmd_server_svshold k0 m sv : ACT k0 -> HL sv (cmd_server_svshold k0 m).
-    Proof. intros HA. unfold cmd_server_svshold. unf. go. all: rest. Qed.
+    Proof. intros HA. unfold cmd_server_svshold. unf. go. Qed.
     Lemma ok_cmd_server_svsmode k0 m sv : ACT k0 -> HL sv (cmd_server_svsmode k0 m).
-    Proof. intros HA. unfold cmd_server_svsmode. unf. go. all: rest. Qed.
+    Proof. intros HA. unfold cmd_server_svsmode. unf. go. Qed.
   End Link.
   (* ---- the command table --------------------------------------------------------------------------- *)
   Lemma srv_cases : srv = true \/ srv = false.
@@ -877,3 +873,5 @@ Proof.
     intros [= <- <-]. split; [constructor|]. intros _. eapply JJ_update_last_cmid; eauto.
   - destruct parsed; intros [= <- <-]; (split; [constructor|intros _]); [apply JJ_config|]; exact HJ.
 Qed.
+
+Print Assumptions entry_sites.
